@@ -46,7 +46,11 @@ def make_exc(kind, n):
     if kind == 4:
         return BaseExc(n)
     from transitions.core import MachineError
-    return {0: MachineError('scripted'), 1: AttributeError('scripted'), 2: ValueError('scripted')}.get(kind, RuntimeError('scripted'))
+    # kinds >= 6 are builtin exception types the library has no business treating specially; they are all
+    # canonicalised to `Other` (the model's Exc.other)
+    return {0: MachineError('scripted'), 1: AttributeError('scripted'), 2: ValueError('scripted'),
+            7: KeyError('scripted'), 8: IndexError('scripted'), 9: OSError('scripted'),
+            10: LookupError('scripted')}.get(kind, RuntimeError('scripted'))
 
 
 # ---------------------------------------------------------------------------------------------
@@ -170,6 +174,7 @@ class Knobs(object):
         self.script_depth = 4       # invocations k < script_depth get scripted acts
         self.p_share_cb = 0.05      # reuse an existing callback id in another list
         self.foreign_models = False  # commands may name models that are not (yet) registered
+        self.deterministic = False   # every invocation of a callback behaves like its first (C12)
         self.__dict__.update(kw)
 
 
@@ -267,8 +272,18 @@ def gen_flat(rng, kn):
                 budget[0] -= n
             if cmds or out != ('ret', True):
                 d.script[(c, k)] = (cmds, out)
+    if kn.deterministic:
+        first = {c: d.script.get((c, 0)) for c in range(nxt[0])}
+        d.script = {}
+        for c, act in first.items():
+            if act is not None:
+                for k in range(DET_DEPTH):
+                    d.script[(c, k)] = act
     d.history = [gen_cmd(kn.hist_kinds) for _ in range(rng.randint(1, kn.max_history))]
     return d
+
+
+DET_DEPTH = 48
 
 
 # ---------------------------------------------------------------------------------------------
@@ -390,8 +405,9 @@ class FlatRun(object):
         if out[0] == 'ret':
             self.items.append(('done', cid, 0, int(bool(out[1])), 0))
             return out[1]
-        self.items.append(('done', cid, 1, out[1], out[2]))
-        raise make_exc(out[1], out[2])
+        exc = make_exc(out[1], out[2])
+        self.items.append(('done', cid, 1) + canon_exc(exc))
+        raise exc
 
     # -- API calls ---------------------------------------------------------------------------
     def _api(self, kind, a, b, fn):
@@ -437,7 +453,12 @@ class FlatRun(object):
             b = 0
 
             def fn(tag):
-                mach.remove_model(self.model_objs[a])
+                try:
+                    mach.remove_model(self.model_objs[a])
+                except KeyError as e:
+                    # not registered: list.remove raises ValueError, the locked classes' context map raises KeyError
+                    # first — the same refusal (no property distinguishes them); normalised at the call site
+                    raise ValueError(str(e))
                 return True
         elif kind == ADD:
             b = 0
@@ -465,6 +486,22 @@ class FlatRun(object):
             if 'state' in mo.__dict__:
                 st[m] = self.state_id(mo)
         return models, st
+
+
+class ExpandedDispatchRun(FlatRun):
+    """Twin for the dispatch clause of C10: a `dispatch` is replaced by what it is documented to be — the
+    event triggered once on every registered model, in registration order, with the dispatch call's
+    arguments, the result being the conjunction (an escaping exception ends the walk)."""
+
+    def do_cmd(self, c):
+        kind, a, b = c
+        if kind != DISPATCH:
+            return FlatRun.do_cmd(self, c)
+
+        def fn(tag):
+            res = [mo.trigger(ename(b), tag, m=-1) for mo in list(self.machine.models)]
+            return all(res)
+        return self._api(kind, 0, b, fn)
 
 
 def parse_model_answer(ans):
